@@ -638,6 +638,11 @@ func nextWake(s *MKey, dataOf func(req [16]byte) ([]byte, *OpSpec), cfg ModelCfg
 	a.Waiters = a.Waiters[1:]
 	locked := s.locked()
 	before := s.Val
+	if hi := s.holderIdx(w.Lid); hi >= 0 {
+		// C02: its LockId holds the key by now (another request of that LockId was served first): the
+		// queued request does not become a second hold under one LockId, it is refused
+		return []Outcome{{After: a, Pred: Pred{Result: protocol.RESULT_LOCKED_ERROR, LRCount: s.Holders[hi].Depth, LCount: uint16(locked), Before: before, LockId: w.Lid}, Note: "refused: its LockId holds the key", SecondReq: w.Req}}
+	}
 	if frame != nil {
 		a.Val = applyValueOp(a.Val, frame, cfg.SeqPipeline)
 	}
